@@ -103,7 +103,8 @@ def run(ctx):
                "length; payload types: five size/alignment/nothrow-move classes and two scheduler types whose own special members "
                "and CPO customisations are correct and give the strong guarantee when a move constructor throws")
     rep.assume("basic_any_object is instantiated with InlineSize 20 / InlineAlignment 8 and a counting allocator (the defaults of "
-               "any_object differ only in these template arguments); any_unique is driven with non-const CPO signatures")
+               "any_object differ only in these template arguments); any_unique is driven with non-const CPO signatures; value assignment "
+               "from a const lvalue is exercised on a basic_any_object whose CPOs all take const this_& (otherwise that overload is not viable)")
     suffix = "" if ctx.quick else "_deep"
     # ---- 1. model checking + edge export (one TLC process per family group, in parallel)
     results = {}
@@ -137,8 +138,8 @@ def run(ctx):
 
     def build():         # the driver is compiled while TLC runs
         try:
-            built["exe"] = vlib.build(ctx, "erase_driver", [os.path.join(HERE, "driver.cpp")],
-                                      lib=["inplace_stop_token.cpp", "async_stack.cpp", "exception.cpp"], opt="-O0")
+            built["exe"] = vlib.build(ctx, "erase_driver", [os.path.join(HERE, "driver.cpp"), os.path.join(HERE, "driver_sched.cpp")],
+                                      lib=["inplace_stop_token.cpp", "async_stack.cpp", "exception.cpp"], opt="-O0", incs=[HERE])
         except Exception as ex:          # noqa
             built["exe"] = ex
 
@@ -177,9 +178,15 @@ def run(ctx):
             walks = walks[:cap]
         for fam, w in walks:
             w = [json.loads(l) for l in w]
-            variants = [0, 1] if fam in ("uniq", "ref") else [0]
+            # variant 1: any_unique / any_ref with two CPOs (inline vtable); basic_any_object with const-only CPOs - the only
+            # configuration in which `wrapper = const_lvalue` is the value-assignment operator (copy-constructs in place)
+            if fam in ("objT", "objF"):
+                copy_assign = any(e["op"]["k"] == "assign" and e["op"]["via"] == "copy" for e in w)
+                variants = [1] if copy_assign else ([ctx.rng.randrange(2)] if ctx.quick else [0, 1])
+            else:
+                variants = [0, 1] if fam in ("uniq", "ref") else [0]
             for v in variants:
-                if v == 1 and ctx.quick and ctx.rng.random() < 0.5:
+                if v == 1 and ctx.quick and fam in ("uniq", "ref") and ctx.rng.random() < 0.5:
                     continue
                 behaviours.append(dict(fam=fam, variant=v, steps=[dict(op=e["op"], exp=e["obs"]) for e in w]))
         del adj
